@@ -490,6 +490,22 @@ func c14mutants(c *Ctx, height uint64, outs []ecOut) []string {
 		// drop an output
 		m = append(cp()[:k:k], outs[k+1:]...)
 		add(m, 1)
+		// one table entry paid twice instead of another one (same number of paying outputs)
+		if len(outs) >= 3 {
+			j := 1 + c.Rng.Intn(len(outs)-1)
+			k2 := 1 + c.Rng.Intn(len(outs)-1)
+			if j != k2 {
+				m = cp()
+				m[j] = outs[k2]
+				add(m, 1)
+			}
+			// every paying output replaced by the first paying one
+			m = cp()
+			for i := 2; i < len(m); i++ {
+				m[i] = outs[1]
+			}
+			add(m, 1)
+		}
 		// move the first output to the end / duplicate it
 		m = append(cp()[1:], outs[0])
 		add(m, 1)
